@@ -1,0 +1,220 @@
+//go:build verif
+
+// Contracts for /verif (build tag "verif"): //@ comment blocks and pure ghost functions only.
+package wazero
+
+import (
+	"io"
+	"io/fs"
+
+	"github.com/tetratelabs/wazero/api"
+	experimentalsys "github.com/tetratelabs/wazero/experimental/sys"
+	"github.com/tetratelabs/wazero/sys"
+)
+
+var (
+	_ io.Reader
+	_ fs.FS
+	_ api.CoreFeatures
+	_ experimentalsys.FS
+	_ sys.Walltime
+)
+
+func verif_eq[T any](a, b T) bool { return true }
+
+func mapHasSI(m map[string]int, k string) bool { _, ok := m[k]; return ok }
+
+// mcInv: every recorded environment key indexes a (key,value) pair of environ.
+func mcInv(c *moduleConfig) bool {
+	return verif_forall(func(k string) bool {
+		return !mapHasSI(c.environKeys, k) || (0 <= c.environKeys[k] && c.environKeys[k] < len(c.environ)-1)
+	})
+}
+
+// fcInv: every de-duplication entry indexes both parallel slices.
+func fcInv(c *fsConfig) bool {
+	return len(c.fs) == len(c.guestPaths) && verif_forall(func(k string) bool {
+		return !mapHasSI(c.guestPathToFS, k) || (0 <= c.guestPathToFS[k] && c.guestPathToFS[k] < len(c.fs))
+	})
+}
+
+//@ prop C19
+
+//@ func (c *runtimeConfig) clone() *runtimeConfig
+//@   ensures[fresh] verif_fresh(r0)
+//@   ensures[copied] verif_eq(r0.enabledFeatures, c.enabledFeatures) && verif_eq(r0.memoryLimitPages, c.memoryLimitPages) && verif_eq(r0.memoryCapacityFromMax, c.memoryCapacityFromMax) && verif_eq(r0.engineKind, c.engineKind) && verif_eq(r0.dwarfDisabled, c.dwarfDisabled) && verif_eq(r0.newEngine, c.newEngine) && verif_eq(r0.cache, c.cache) && verif_eq(r0.storeCustomSections, c.storeCustomSections) && verif_eq(r0.ensureTermination, c.ensureTermination)
+//@   modifies nothing
+
+//@ func (c *runtimeConfig) WithCoreFeatures(features api.CoreFeatures) RuntimeConfig
+//@   ensures[fresh] verif_fresh(r0.(*runtimeConfig))
+//@   ensures[set] verif_eq(r0.(*runtimeConfig).enabledFeatures, features)
+//@   ensures[others-copied] verif_eq(r0.(*runtimeConfig).memoryLimitPages, c.memoryLimitPages) && verif_eq(r0.(*runtimeConfig).memoryCapacityFromMax, c.memoryCapacityFromMax) && verif_eq(r0.(*runtimeConfig).engineKind, c.engineKind) && verif_eq(r0.(*runtimeConfig).dwarfDisabled, c.dwarfDisabled) && verif_eq(r0.(*runtimeConfig).newEngine, c.newEngine) && verif_eq(r0.(*runtimeConfig).cache, c.cache) && verif_eq(r0.(*runtimeConfig).storeCustomSections, c.storeCustomSections) && verif_eq(r0.(*runtimeConfig).ensureTermination, c.ensureTermination)
+//@   modifies nothing
+
+//@ func (c *runtimeConfig) WithCloseOnContextDone(ensure bool) RuntimeConfig
+//@   ensures[fresh] verif_fresh(r0.(*runtimeConfig))
+//@   ensures[set] verif_eq(r0.(*runtimeConfig).ensureTermination, ensure)
+//@   ensures[others-copied] verif_eq(r0.(*runtimeConfig).enabledFeatures, c.enabledFeatures) && verif_eq(r0.(*runtimeConfig).memoryLimitPages, c.memoryLimitPages) && verif_eq(r0.(*runtimeConfig).memoryCapacityFromMax, c.memoryCapacityFromMax) && verif_eq(r0.(*runtimeConfig).engineKind, c.engineKind) && verif_eq(r0.(*runtimeConfig).dwarfDisabled, c.dwarfDisabled) && verif_eq(r0.(*runtimeConfig).newEngine, c.newEngine) && verif_eq(r0.(*runtimeConfig).cache, c.cache) && verif_eq(r0.(*runtimeConfig).storeCustomSections, c.storeCustomSections)
+//@   modifies nothing
+
+//@ func (c *runtimeConfig) WithCompilationCache(ca CompilationCache) RuntimeConfig
+//@   ensures[fresh] verif_fresh(r0.(*runtimeConfig))
+//@   ensures[set] verif_eq(r0.(*runtimeConfig).cache, ca)
+//@   ensures[others-copied] verif_eq(r0.(*runtimeConfig).enabledFeatures, c.enabledFeatures) && verif_eq(r0.(*runtimeConfig).memoryLimitPages, c.memoryLimitPages) && verif_eq(r0.(*runtimeConfig).memoryCapacityFromMax, c.memoryCapacityFromMax) && verif_eq(r0.(*runtimeConfig).engineKind, c.engineKind) && verif_eq(r0.(*runtimeConfig).dwarfDisabled, c.dwarfDisabled) && verif_eq(r0.(*runtimeConfig).newEngine, c.newEngine) && verif_eq(r0.(*runtimeConfig).storeCustomSections, c.storeCustomSections) && verif_eq(r0.(*runtimeConfig).ensureTermination, c.ensureTermination)
+//@   modifies nothing
+
+//@ func (c *runtimeConfig) WithMemoryCapacityFromMax(memoryCapacityFromMax bool) RuntimeConfig
+//@   ensures[fresh] verif_fresh(r0.(*runtimeConfig))
+//@   ensures[set] verif_eq(r0.(*runtimeConfig).memoryCapacityFromMax, memoryCapacityFromMax)
+//@   ensures[others-copied] verif_eq(r0.(*runtimeConfig).enabledFeatures, c.enabledFeatures) && verif_eq(r0.(*runtimeConfig).memoryLimitPages, c.memoryLimitPages) && verif_eq(r0.(*runtimeConfig).engineKind, c.engineKind) && verif_eq(r0.(*runtimeConfig).dwarfDisabled, c.dwarfDisabled) && verif_eq(r0.(*runtimeConfig).newEngine, c.newEngine) && verif_eq(r0.(*runtimeConfig).cache, c.cache) && verif_eq(r0.(*runtimeConfig).storeCustomSections, c.storeCustomSections) && verif_eq(r0.(*runtimeConfig).ensureTermination, c.ensureTermination)
+//@   modifies nothing
+
+//@ func (c *runtimeConfig) WithDebugInfoEnabled(dwarfEnabled bool) RuntimeConfig
+//@   ensures[fresh] verif_fresh(r0.(*runtimeConfig))
+//@   ensures[set] verif_eq(r0.(*runtimeConfig).dwarfDisabled, !dwarfEnabled)
+//@   ensures[others-copied] verif_eq(r0.(*runtimeConfig).enabledFeatures, c.enabledFeatures) && verif_eq(r0.(*runtimeConfig).memoryLimitPages, c.memoryLimitPages) && verif_eq(r0.(*runtimeConfig).memoryCapacityFromMax, c.memoryCapacityFromMax) && verif_eq(r0.(*runtimeConfig).engineKind, c.engineKind) && verif_eq(r0.(*runtimeConfig).newEngine, c.newEngine) && verif_eq(r0.(*runtimeConfig).cache, c.cache) && verif_eq(r0.(*runtimeConfig).storeCustomSections, c.storeCustomSections) && verif_eq(r0.(*runtimeConfig).ensureTermination, c.ensureTermination)
+//@   modifies nothing
+
+//@ func (c *runtimeConfig) WithCustomSections(storeCustomSections bool) RuntimeConfig
+//@   ensures[fresh] verif_fresh(r0.(*runtimeConfig))
+//@   ensures[set] verif_eq(r0.(*runtimeConfig).storeCustomSections, storeCustomSections)
+//@   ensures[others-copied] verif_eq(r0.(*runtimeConfig).enabledFeatures, c.enabledFeatures) && verif_eq(r0.(*runtimeConfig).memoryLimitPages, c.memoryLimitPages) && verif_eq(r0.(*runtimeConfig).memoryCapacityFromMax, c.memoryCapacityFromMax) && verif_eq(r0.(*runtimeConfig).engineKind, c.engineKind) && verif_eq(r0.(*runtimeConfig).dwarfDisabled, c.dwarfDisabled) && verif_eq(r0.(*runtimeConfig).newEngine, c.newEngine) && verif_eq(r0.(*runtimeConfig).cache, c.cache) && verif_eq(r0.(*runtimeConfig).ensureTermination, c.ensureTermination)
+//@   modifies nothing
+
+//@ func (c *runtimeConfig) WithMemoryLimitPages(memoryLimitPages uint32) RuntimeConfig
+//@   may-panic memoryLimitPages > 65536
+//@   ensures[fresh] verif_fresh(r0.(*runtimeConfig))
+//@   ensures[set] r0.(*runtimeConfig).memoryLimitPages == memoryLimitPages && memoryLimitPages <= 65536
+//@   ensures[others-copied] verif_eq(r0.(*runtimeConfig).enabledFeatures, c.enabledFeatures) && verif_eq(r0.(*runtimeConfig).memoryCapacityFromMax, c.memoryCapacityFromMax) && verif_eq(r0.(*runtimeConfig).engineKind, c.engineKind) && verif_eq(r0.(*runtimeConfig).dwarfDisabled, c.dwarfDisabled) && verif_eq(r0.(*runtimeConfig).newEngine, c.newEngine) && verif_eq(r0.(*runtimeConfig).cache, c.cache) && verif_eq(r0.(*runtimeConfig).storeCustomSections, c.storeCustomSections) && verif_eq(r0.(*runtimeConfig).ensureTermination, c.ensureTermination)
+//@   modifies nothing
+
+//@ func (c *moduleConfig) clone() *moduleConfig
+//@   ensures[fresh] verif_fresh(r0) && verif_fresh_slice(r0.environ) && len(r0.environ) == len(c.environ)
+//@   ensures[fresh-map] verif_fresh_map(r0.environKeys) && r0.environKeys != nil
+//@   ensures[copied] verif_eq(r0.name, c.name) && verif_eq(r0.nameSet, c.nameSet) && verif_eq(r0.startFunctions, c.startFunctions) && verif_eq(r0.stdin, c.stdin) && verif_eq(r0.stdout, c.stdout) && verif_eq(r0.stderr, c.stderr) && verif_eq(r0.randSource, c.randSource) && verif_eq(r0.walltime, c.walltime) && verif_eq(r0.walltimeResolution, c.walltimeResolution) && verif_eq(r0.nanotime, c.nanotime) && verif_eq(r0.nanotimeResolution, c.nanotimeResolution) && verif_eq(r0.nanosleep, c.nanosleep) && verif_eq(r0.osyield, c.osyield) && verif_eq(r0.args, c.args) && verif_eq(r0.fsConfig, c.fsConfig) && verif_eq(r0.sockConfig, c.sockConfig)
+//@   ensures[keys-subset] forall k string :: mapHasSI(r0.environKeys, k) ==> mapHasSI(c.environKeys, k) && r0.environKeys[k] == c.environKeys[k]
+//@   ensures[environ-copied] forall i int :: 0 <= i && i < len(c.environ) ==> verif_eq(r0.environ[i], c.environ[i])
+//@   modifies nothing
+//@   loop 0 (ret moduleConfig)
+//@     invariant forall k string :: mapHasSI(ret.environKeys, k) ==> mapHasSI(c.environKeys, k) && ret.environKeys[k] == c.environKeys[k]
+
+//@ func (c *moduleConfig) WithFSConfig(config FSConfig) ModuleConfig
+//@   ensures[fresh] verif_fresh(r0.(*moduleConfig))
+//@   ensures[set] verif_eq(r0.(*moduleConfig).fsConfig, config)
+//@   ensures[others-copied] verif_eq(r0.(*moduleConfig).name, c.name) && verif_eq(r0.(*moduleConfig).nameSet, c.nameSet) && verif_eq(r0.(*moduleConfig).startFunctions, c.startFunctions) && verif_eq(r0.(*moduleConfig).stdin, c.stdin) && verif_eq(r0.(*moduleConfig).stdout, c.stdout) && verif_eq(r0.(*moduleConfig).stderr, c.stderr) && verif_eq(r0.(*moduleConfig).randSource, c.randSource) && verif_eq(r0.(*moduleConfig).walltime, c.walltime) && verif_eq(r0.(*moduleConfig).walltimeResolution, c.walltimeResolution) && verif_eq(r0.(*moduleConfig).nanotime, c.nanotime) && verif_eq(r0.(*moduleConfig).nanotimeResolution, c.nanotimeResolution) && verif_eq(r0.(*moduleConfig).nanosleep, c.nanosleep) && verif_eq(r0.(*moduleConfig).osyield, c.osyield) && verif_eq(r0.(*moduleConfig).args, c.args) && verif_eq(r0.(*moduleConfig).sockConfig, c.sockConfig)
+//@   modifies nothing
+
+//@ func (c *moduleConfig) WithName(name string) ModuleConfig
+//@   ensures[fresh] verif_fresh(r0.(*moduleConfig))
+//@   ensures[set] r0.(*moduleConfig).name == name && r0.(*moduleConfig).nameSet
+//@   ensures[others-copied] verif_eq(r0.(*moduleConfig).startFunctions, c.startFunctions) && verif_eq(r0.(*moduleConfig).stdin, c.stdin) && verif_eq(r0.(*moduleConfig).stdout, c.stdout) && verif_eq(r0.(*moduleConfig).stderr, c.stderr) && verif_eq(r0.(*moduleConfig).randSource, c.randSource) && verif_eq(r0.(*moduleConfig).walltime, c.walltime) && verif_eq(r0.(*moduleConfig).walltimeResolution, c.walltimeResolution) && verif_eq(r0.(*moduleConfig).nanotime, c.nanotime) && verif_eq(r0.(*moduleConfig).nanotimeResolution, c.nanotimeResolution) && verif_eq(r0.(*moduleConfig).nanosleep, c.nanosleep) && verif_eq(r0.(*moduleConfig).osyield, c.osyield) && verif_eq(r0.(*moduleConfig).args, c.args) && verif_eq(r0.(*moduleConfig).fsConfig, c.fsConfig) && verif_eq(r0.(*moduleConfig).sockConfig, c.sockConfig)
+//@   modifies nothing
+
+//@ func (c *moduleConfig) WithStderr(stderr io.Writer) ModuleConfig
+//@   ensures[fresh] verif_fresh(r0.(*moduleConfig))
+//@   ensures[set] verif_eq(r0.(*moduleConfig).stderr, stderr)
+//@   ensures[others-copied] verif_eq(r0.(*moduleConfig).name, c.name) && verif_eq(r0.(*moduleConfig).nameSet, c.nameSet) && verif_eq(r0.(*moduleConfig).startFunctions, c.startFunctions) && verif_eq(r0.(*moduleConfig).stdin, c.stdin) && verif_eq(r0.(*moduleConfig).stdout, c.stdout) && verif_eq(r0.(*moduleConfig).randSource, c.randSource) && verif_eq(r0.(*moduleConfig).walltime, c.walltime) && verif_eq(r0.(*moduleConfig).walltimeResolution, c.walltimeResolution) && verif_eq(r0.(*moduleConfig).nanotime, c.nanotime) && verif_eq(r0.(*moduleConfig).nanotimeResolution, c.nanotimeResolution) && verif_eq(r0.(*moduleConfig).nanosleep, c.nanosleep) && verif_eq(r0.(*moduleConfig).osyield, c.osyield) && verif_eq(r0.(*moduleConfig).args, c.args) && verif_eq(r0.(*moduleConfig).fsConfig, c.fsConfig) && verif_eq(r0.(*moduleConfig).sockConfig, c.sockConfig)
+//@   modifies nothing
+
+//@ func (c *moduleConfig) WithStdin(stdin io.Reader) ModuleConfig
+//@   ensures[fresh] verif_fresh(r0.(*moduleConfig))
+//@   ensures[set] verif_eq(r0.(*moduleConfig).stdin, stdin)
+//@   ensures[others-copied] verif_eq(r0.(*moduleConfig).name, c.name) && verif_eq(r0.(*moduleConfig).nameSet, c.nameSet) && verif_eq(r0.(*moduleConfig).startFunctions, c.startFunctions) && verif_eq(r0.(*moduleConfig).stdout, c.stdout) && verif_eq(r0.(*moduleConfig).stderr, c.stderr) && verif_eq(r0.(*moduleConfig).randSource, c.randSource) && verif_eq(r0.(*moduleConfig).walltime, c.walltime) && verif_eq(r0.(*moduleConfig).walltimeResolution, c.walltimeResolution) && verif_eq(r0.(*moduleConfig).nanotime, c.nanotime) && verif_eq(r0.(*moduleConfig).nanotimeResolution, c.nanotimeResolution) && verif_eq(r0.(*moduleConfig).nanosleep, c.nanosleep) && verif_eq(r0.(*moduleConfig).osyield, c.osyield) && verif_eq(r0.(*moduleConfig).args, c.args) && verif_eq(r0.(*moduleConfig).fsConfig, c.fsConfig) && verif_eq(r0.(*moduleConfig).sockConfig, c.sockConfig)
+//@   modifies nothing
+
+//@ func (c *moduleConfig) WithStdout(stdout io.Writer) ModuleConfig
+//@   ensures[fresh] verif_fresh(r0.(*moduleConfig))
+//@   ensures[set] verif_eq(r0.(*moduleConfig).stdout, stdout)
+//@   ensures[others-copied] verif_eq(r0.(*moduleConfig).name, c.name) && verif_eq(r0.(*moduleConfig).nameSet, c.nameSet) && verif_eq(r0.(*moduleConfig).startFunctions, c.startFunctions) && verif_eq(r0.(*moduleConfig).stdin, c.stdin) && verif_eq(r0.(*moduleConfig).stderr, c.stderr) && verif_eq(r0.(*moduleConfig).randSource, c.randSource) && verif_eq(r0.(*moduleConfig).walltime, c.walltime) && verif_eq(r0.(*moduleConfig).walltimeResolution, c.walltimeResolution) && verif_eq(r0.(*moduleConfig).nanotime, c.nanotime) && verif_eq(r0.(*moduleConfig).nanotimeResolution, c.nanotimeResolution) && verif_eq(r0.(*moduleConfig).nanosleep, c.nanosleep) && verif_eq(r0.(*moduleConfig).osyield, c.osyield) && verif_eq(r0.(*moduleConfig).args, c.args) && verif_eq(r0.(*moduleConfig).fsConfig, c.fsConfig) && verif_eq(r0.(*moduleConfig).sockConfig, c.sockConfig)
+//@   modifies nothing
+
+//@ func (c *moduleConfig) WithNanosleep(nanosleep sys.Nanosleep) ModuleConfig
+//@   ensures[fresh] verif_fresh(r0.(*moduleConfig))
+//@   ensures[set] verif_eq(r0.(*moduleConfig).nanosleep, nanosleep)
+//@   ensures[others-copied] verif_eq(r0.(*moduleConfig).name, c.name) && verif_eq(r0.(*moduleConfig).nameSet, c.nameSet) && verif_eq(r0.(*moduleConfig).startFunctions, c.startFunctions) && verif_eq(r0.(*moduleConfig).stdin, c.stdin) && verif_eq(r0.(*moduleConfig).stdout, c.stdout) && verif_eq(r0.(*moduleConfig).stderr, c.stderr) && verif_eq(r0.(*moduleConfig).randSource, c.randSource) && verif_eq(r0.(*moduleConfig).walltime, c.walltime) && verif_eq(r0.(*moduleConfig).walltimeResolution, c.walltimeResolution) && verif_eq(r0.(*moduleConfig).nanotime, c.nanotime) && verif_eq(r0.(*moduleConfig).nanotimeResolution, c.nanotimeResolution) && verif_eq(r0.(*moduleConfig).osyield, c.osyield) && verif_eq(r0.(*moduleConfig).args, c.args) && verif_eq(r0.(*moduleConfig).fsConfig, c.fsConfig) && verif_eq(r0.(*moduleConfig).sockConfig, c.sockConfig)
+//@   modifies nothing
+
+//@ func (c *moduleConfig) WithOsyield(osyield sys.Osyield) ModuleConfig
+//@   ensures[fresh] verif_fresh(r0.(*moduleConfig))
+//@   ensures[set] verif_eq(r0.(*moduleConfig).osyield, osyield)
+//@   ensures[others-copied] verif_eq(r0.(*moduleConfig).name, c.name) && verif_eq(r0.(*moduleConfig).nameSet, c.nameSet) && verif_eq(r0.(*moduleConfig).startFunctions, c.startFunctions) && verif_eq(r0.(*moduleConfig).stdin, c.stdin) && verif_eq(r0.(*moduleConfig).stdout, c.stdout) && verif_eq(r0.(*moduleConfig).stderr, c.stderr) && verif_eq(r0.(*moduleConfig).randSource, c.randSource) && verif_eq(r0.(*moduleConfig).walltime, c.walltime) && verif_eq(r0.(*moduleConfig).walltimeResolution, c.walltimeResolution) && verif_eq(r0.(*moduleConfig).nanotime, c.nanotime) && verif_eq(r0.(*moduleConfig).nanotimeResolution, c.nanotimeResolution) && verif_eq(r0.(*moduleConfig).nanosleep, c.nanosleep) && verif_eq(r0.(*moduleConfig).args, c.args) && verif_eq(r0.(*moduleConfig).fsConfig, c.fsConfig) && verif_eq(r0.(*moduleConfig).sockConfig, c.sockConfig)
+//@   modifies nothing
+
+//@ func (c *moduleConfig) WithRandSource(source io.Reader) ModuleConfig
+//@   ensures[fresh] verif_fresh(r0.(*moduleConfig))
+//@   ensures[set] verif_eq(r0.(*moduleConfig).randSource, source)
+//@   ensures[others-copied] verif_eq(r0.(*moduleConfig).name, c.name) && verif_eq(r0.(*moduleConfig).nameSet, c.nameSet) && verif_eq(r0.(*moduleConfig).startFunctions, c.startFunctions) && verif_eq(r0.(*moduleConfig).stdin, c.stdin) && verif_eq(r0.(*moduleConfig).stdout, c.stdout) && verif_eq(r0.(*moduleConfig).stderr, c.stderr) && verif_eq(r0.(*moduleConfig).walltime, c.walltime) && verif_eq(r0.(*moduleConfig).walltimeResolution, c.walltimeResolution) && verif_eq(r0.(*moduleConfig).nanotime, c.nanotime) && verif_eq(r0.(*moduleConfig).nanotimeResolution, c.nanotimeResolution) && verif_eq(r0.(*moduleConfig).nanosleep, c.nanosleep) && verif_eq(r0.(*moduleConfig).osyield, c.osyield) && verif_eq(r0.(*moduleConfig).args, c.args) && verif_eq(r0.(*moduleConfig).fsConfig, c.fsConfig) && verif_eq(r0.(*moduleConfig).sockConfig, c.sockConfig)
+//@   modifies nothing
+
+//@ func (c *moduleConfig) WithWalltime(walltime sys.Walltime, resolution sys.ClockResolution) ModuleConfig
+//@   ensures[fresh] verif_fresh(r0.(*moduleConfig))
+//@   ensures[set] verif_eq(r0.(*moduleConfig).walltime, walltime) && r0.(*moduleConfig).walltimeResolution == resolution
+//@   ensures[others-copied] verif_eq(r0.(*moduleConfig).name, c.name) && verif_eq(r0.(*moduleConfig).nameSet, c.nameSet) && verif_eq(r0.(*moduleConfig).startFunctions, c.startFunctions) && verif_eq(r0.(*moduleConfig).stdin, c.stdin) && verif_eq(r0.(*moduleConfig).stdout, c.stdout) && verif_eq(r0.(*moduleConfig).stderr, c.stderr) && verif_eq(r0.(*moduleConfig).randSource, c.randSource) && verif_eq(r0.(*moduleConfig).nanotime, c.nanotime) && verif_eq(r0.(*moduleConfig).nanotimeResolution, c.nanotimeResolution) && verif_eq(r0.(*moduleConfig).nanosleep, c.nanosleep) && verif_eq(r0.(*moduleConfig).osyield, c.osyield) && verif_eq(r0.(*moduleConfig).args, c.args) && verif_eq(r0.(*moduleConfig).fsConfig, c.fsConfig) && verif_eq(r0.(*moduleConfig).sockConfig, c.sockConfig)
+//@   modifies nothing
+
+//@ func (c *moduleConfig) WithNanotime(nanotime sys.Nanotime, resolution sys.ClockResolution) ModuleConfig
+//@   ensures[fresh] verif_fresh(r0.(*moduleConfig))
+//@   ensures[set] verif_eq(r0.(*moduleConfig).nanotime, nanotime) && r0.(*moduleConfig).nanotimeResolution == resolution
+//@   ensures[others-copied] verif_eq(r0.(*moduleConfig).name, c.name) && verif_eq(r0.(*moduleConfig).nameSet, c.nameSet) && verif_eq(r0.(*moduleConfig).startFunctions, c.startFunctions) && verif_eq(r0.(*moduleConfig).stdin, c.stdin) && verif_eq(r0.(*moduleConfig).stdout, c.stdout) && verif_eq(r0.(*moduleConfig).stderr, c.stderr) && verif_eq(r0.(*moduleConfig).randSource, c.randSource) && verif_eq(r0.(*moduleConfig).walltime, c.walltime) && verif_eq(r0.(*moduleConfig).walltimeResolution, c.walltimeResolution) && verif_eq(r0.(*moduleConfig).nanosleep, c.nanosleep) && verif_eq(r0.(*moduleConfig).osyield, c.osyield) && verif_eq(r0.(*moduleConfig).args, c.args) && verif_eq(r0.(*moduleConfig).fsConfig, c.fsConfig) && verif_eq(r0.(*moduleConfig).sockConfig, c.sockConfig)
+//@   modifies nothing
+
+//@ func (c *moduleConfig) WithSysWalltime() ModuleConfig
+//@   ensures[fresh] verif_fresh(r0.(*moduleConfig))
+//@   ensures[set] true
+//@   ensures[others-copied] verif_eq(r0.(*moduleConfig).name, c.name) && verif_eq(r0.(*moduleConfig).nameSet, c.nameSet) && verif_eq(r0.(*moduleConfig).startFunctions, c.startFunctions) && verif_eq(r0.(*moduleConfig).stdin, c.stdin) && verif_eq(r0.(*moduleConfig).stdout, c.stdout) && verif_eq(r0.(*moduleConfig).stderr, c.stderr) && verif_eq(r0.(*moduleConfig).randSource, c.randSource) && verif_eq(r0.(*moduleConfig).nanotime, c.nanotime) && verif_eq(r0.(*moduleConfig).nanotimeResolution, c.nanotimeResolution) && verif_eq(r0.(*moduleConfig).nanosleep, c.nanosleep) && verif_eq(r0.(*moduleConfig).osyield, c.osyield) && verif_eq(r0.(*moduleConfig).args, c.args) && verif_eq(r0.(*moduleConfig).fsConfig, c.fsConfig) && verif_eq(r0.(*moduleConfig).sockConfig, c.sockConfig)
+//@   modifies nothing
+
+//@ func (c *moduleConfig) WithSysNanotime() ModuleConfig
+//@   ensures[fresh] verif_fresh(r0.(*moduleConfig))
+//@   ensures[set] true
+//@   ensures[others-copied] verif_eq(r0.(*moduleConfig).name, c.name) && verif_eq(r0.(*moduleConfig).nameSet, c.nameSet) && verif_eq(r0.(*moduleConfig).startFunctions, c.startFunctions) && verif_eq(r0.(*moduleConfig).stdin, c.stdin) && verif_eq(r0.(*moduleConfig).stdout, c.stdout) && verif_eq(r0.(*moduleConfig).stderr, c.stderr) && verif_eq(r0.(*moduleConfig).randSource, c.randSource) && verif_eq(r0.(*moduleConfig).walltime, c.walltime) && verif_eq(r0.(*moduleConfig).walltimeResolution, c.walltimeResolution) && verif_eq(r0.(*moduleConfig).nanosleep, c.nanosleep) && verif_eq(r0.(*moduleConfig).osyield, c.osyield) && verif_eq(r0.(*moduleConfig).args, c.args) && verif_eq(r0.(*moduleConfig).fsConfig, c.fsConfig) && verif_eq(r0.(*moduleConfig).sockConfig, c.sockConfig)
+//@   modifies nothing
+
+//@ func (c *moduleConfig) WithSysNanosleep() ModuleConfig
+//@   ensures[fresh] verif_fresh(r0.(*moduleConfig))
+//@   ensures[set] true
+//@   ensures[others-copied] verif_eq(r0.(*moduleConfig).name, c.name) && verif_eq(r0.(*moduleConfig).nameSet, c.nameSet) && verif_eq(r0.(*moduleConfig).startFunctions, c.startFunctions) && verif_eq(r0.(*moduleConfig).stdin, c.stdin) && verif_eq(r0.(*moduleConfig).stdout, c.stdout) && verif_eq(r0.(*moduleConfig).stderr, c.stderr) && verif_eq(r0.(*moduleConfig).randSource, c.randSource) && verif_eq(r0.(*moduleConfig).walltime, c.walltime) && verif_eq(r0.(*moduleConfig).walltimeResolution, c.walltimeResolution) && verif_eq(r0.(*moduleConfig).nanotime, c.nanotime) && verif_eq(r0.(*moduleConfig).nanotimeResolution, c.nanotimeResolution) && verif_eq(r0.(*moduleConfig).osyield, c.osyield) && verif_eq(r0.(*moduleConfig).args, c.args) && verif_eq(r0.(*moduleConfig).fsConfig, c.fsConfig) && verif_eq(r0.(*moduleConfig).sockConfig, c.sockConfig)
+//@   modifies nothing
+
+//@ func (c *moduleConfig) WithFS(fs fs.FS) ModuleConfig
+//@   ensures[fresh] verif_fresh(r0.(*moduleConfig))
+//@   ensures[set] true
+//@   ensures[others-copied] verif_eq(r0.(*moduleConfig).name, c.name) && verif_eq(r0.(*moduleConfig).nameSet, c.nameSet) && verif_eq(r0.(*moduleConfig).startFunctions, c.startFunctions) && verif_eq(r0.(*moduleConfig).stdin, c.stdin) && verif_eq(r0.(*moduleConfig).stdout, c.stdout) && verif_eq(r0.(*moduleConfig).stderr, c.stderr) && verif_eq(r0.(*moduleConfig).randSource, c.randSource) && verif_eq(r0.(*moduleConfig).walltime, c.walltime) && verif_eq(r0.(*moduleConfig).walltimeResolution, c.walltimeResolution) && verif_eq(r0.(*moduleConfig).nanotime, c.nanotime) && verif_eq(r0.(*moduleConfig).nanotimeResolution, c.nanotimeResolution) && verif_eq(r0.(*moduleConfig).nanosleep, c.nanosleep) && verif_eq(r0.(*moduleConfig).osyield, c.osyield) && verif_eq(r0.(*moduleConfig).args, c.args) && verif_eq(r0.(*moduleConfig).sockConfig, c.sockConfig)
+//@   modifies nothing
+
+//@ func (c *moduleConfig) WithStartFunctions(startFunctions ...string) ModuleConfig
+//@   ensures[fresh] verif_fresh(r0.(*moduleConfig))
+//@   ensures[others-copied] verif_eq(r0.(*moduleConfig).name, c.name) && verif_eq(r0.(*moduleConfig).nameSet, c.nameSet) && verif_eq(r0.(*moduleConfig).stdin, c.stdin) && verif_eq(r0.(*moduleConfig).stdout, c.stdout) && verif_eq(r0.(*moduleConfig).stderr, c.stderr) && verif_eq(r0.(*moduleConfig).randSource, c.randSource) && verif_eq(r0.(*moduleConfig).walltime, c.walltime) && verif_eq(r0.(*moduleConfig).walltimeResolution, c.walltimeResolution) && verif_eq(r0.(*moduleConfig).nanotime, c.nanotime) && verif_eq(r0.(*moduleConfig).nanotimeResolution, c.nanotimeResolution) && verif_eq(r0.(*moduleConfig).nanosleep, c.nanosleep) && verif_eq(r0.(*moduleConfig).osyield, c.osyield) && verif_eq(r0.(*moduleConfig).args, c.args) && verif_eq(r0.(*moduleConfig).fsConfig, c.fsConfig) && verif_eq(r0.(*moduleConfig).sockConfig, c.sockConfig)
+//@   modifies nothing
+
+//@ func toByteSlices(strings []string) (result [][]byte)
+//@   ensures[fresh] verif_fresh_slice(result) && len(result) == len(strings)
+//@   modifies nothing
+
+//@ func (c *moduleConfig) WithArgs(args ...string) ModuleConfig
+//@   ensures[fresh] verif_fresh(r0.(*moduleConfig)) && verif_fresh_slice(r0.(*moduleConfig).args)
+//@   ensures[others-copied] verif_eq(r0.(*moduleConfig).name, c.name) && verif_eq(r0.(*moduleConfig).nameSet, c.nameSet) && verif_eq(r0.(*moduleConfig).startFunctions, c.startFunctions) && verif_eq(r0.(*moduleConfig).stdin, c.stdin) && verif_eq(r0.(*moduleConfig).stdout, c.stdout) && verif_eq(r0.(*moduleConfig).stderr, c.stderr) && verif_eq(r0.(*moduleConfig).randSource, c.randSource) && verif_eq(r0.(*moduleConfig).walltime, c.walltime) && verif_eq(r0.(*moduleConfig).walltimeResolution, c.walltimeResolution) && verif_eq(r0.(*moduleConfig).nanotime, c.nanotime) && verif_eq(r0.(*moduleConfig).nanotimeResolution, c.nanotimeResolution) && verif_eq(r0.(*moduleConfig).nanosleep, c.nanosleep) && verif_eq(r0.(*moduleConfig).osyield, c.osyield) && verif_eq(r0.(*moduleConfig).fsConfig, c.fsConfig) && verif_eq(r0.(*moduleConfig).sockConfig, c.sockConfig)
+//@   modifies nothing
+
+//@ func (c *moduleConfig) WithEnv(key, value string) ModuleConfig
+//@   requires mcInv(c)
+//@   ensures[fresh] verif_fresh(r0.(*moduleConfig))
+//@   ensures[others-copied] verif_eq(r0.(*moduleConfig).name, c.name) && verif_eq(r0.(*moduleConfig).nameSet, c.nameSet) && verif_eq(r0.(*moduleConfig).startFunctions, c.startFunctions) && verif_eq(r0.(*moduleConfig).stdin, c.stdin) && verif_eq(r0.(*moduleConfig).stdout, c.stdout) && verif_eq(r0.(*moduleConfig).stderr, c.stderr) && verif_eq(r0.(*moduleConfig).randSource, c.randSource) && verif_eq(r0.(*moduleConfig).walltime, c.walltime) && verif_eq(r0.(*moduleConfig).walltimeResolution, c.walltimeResolution) && verif_eq(r0.(*moduleConfig).nanotime, c.nanotime) && verif_eq(r0.(*moduleConfig).nanotimeResolution, c.nanotimeResolution) && verif_eq(r0.(*moduleConfig).nanosleep, c.nanosleep) && verif_eq(r0.(*moduleConfig).osyield, c.osyield) && verif_eq(r0.(*moduleConfig).args, c.args) && verif_eq(r0.(*moduleConfig).fsConfig, c.fsConfig) && verif_eq(r0.(*moduleConfig).sockConfig, c.sockConfig)
+//@   modifies nothing
+
+//@ func (c *fsConfig) clone() *fsConfig
+//@   ensures[fresh] verif_fresh(r0) && verif_fresh_slice(r0.fs) && verif_fresh_slice(r0.guestPaths) && verif_fresh_map(r0.guestPathToFS)
+//@   ensures[lens] len(r0.fs) == len(c.fs) && len(r0.guestPaths) == len(c.guestPaths) && r0.guestPathToFS != nil
+//@   ensures[keys-subset] forall k string :: mapHasSI(r0.guestPathToFS, k) ==> mapHasSI(c.guestPathToFS, k) && r0.guestPathToFS[k] == c.guestPathToFS[k]
+//@   modifies nothing
+//@   loop 0 (ret fsConfig)
+//@     invariant forall k string :: mapHasSI(ret.guestPathToFS, k) ==> mapHasSI(c.guestPathToFS, k) && ret.guestPathToFS[k] == c.guestPathToFS[k]
+
+//@ func (c *fsConfig) WithSysFSMount(fs experimentalsys.FS, guestPath string) FSConfig
+//@   requires fcInv(c)
+//@   ensures[fresh-or-same] verif_fresh(r0.(*fsConfig)) || r0.(*fsConfig) == c
+//@   modifies nothing
+
+//@ func (c *fsConfig) preopens() ([]experimentalsys.FS, []string)
+//@   ensures[fresh] verif_fresh_slice(r0) && verif_fresh_slice(r1)
+//@   modifies nothing
